@@ -21,11 +21,16 @@ fn hex(s: &[u8]) -> String {
 
 pub struct P {
     pub spans: bool,
+    /// full mode (subcommand `treef`): spans are `@file_id:line_start:line_end:col_start:col_end`,
+    /// if-branches carry their span, functions carry their name (hex)
+    pub full: bool,
 }
 
 impl P {
     fn sp(&self, s: &sylt_parser::Span) -> String {
-        if self.spans {
+        if self.full {
+            format!("@{}:{}:{}:{}:{}", s.file_id, s.line_start, s.line_end, s.col_start, s.col_end)
+        } else if self.spans {
             format!("@{}:{}:{}", s.line_start, s.col_start, s.col_end)
         } else {
             String::new()
@@ -46,7 +51,7 @@ impl P {
     }
 
     pub fn ty(&self, t: &Type) -> String {
-        if self.spans {
+        if self.spans || self.full {
             return format!("(ty{} {})", self.sp(&t.span), self.ty_inner(t));
         }
         self.ty_inner(t)
@@ -179,7 +184,8 @@ impl P {
                 let mut s = format!("(if{}", sp);
                 for b in branches {
                     s.push_str(&format!(
-                        " (br {}{})",
+                        " (br{} {}{})",
+                        if self.full { self.sp(&b.span) } else { String::new() },
                         match &b.condition {
                             Some(c) => self.expr(c),
                             None => "_".into(),
@@ -210,8 +216,13 @@ impl P {
                 s.push(')');
                 s
             }
-            EK::Function { name: _, params, ret, body, pure } => {
-                let mut s = format!("(fn{} {} (", sp, if *pure { "pure" } else { "impure" });
+            EK::Function { name, params, ret, body, pure } => {
+                let mut s = format!(
+                    "(fn{} {}{} (",
+                    sp,
+                    if *pure { "pure" } else { "impure" },
+                    if self.full { format!(" {}", hex(name.as_bytes())) } else { String::new() }
+                );
                 s.push_str(
                     &params
                         .iter()
@@ -371,7 +382,12 @@ impl P {
 
 /// whole-program parse (module discovery included): one `(module <file> <file_id> stmts...)` per module
 pub fn tree_dump(tree: &sylt_parser::AST, spans: bool) -> String {
-    let p = P { spans };
+    tree_dump_mode(tree, spans, false)
+}
+
+/// `full`: see `P::full`
+pub fn tree_dump_mode(tree: &sylt_parser::AST, spans: bool, full: bool) -> String {
+    let p = P { spans, full };
     let mut out = String::new();
     for (f, m) in tree.modules.iter() {
         out.push_str(&format!("(module {} {}", p.file(f), m.file_id));
@@ -405,7 +421,7 @@ fn curr_of(ctx: &Context) -> usize {
 
 pub fn parse_line(cmd: &str, src: &str) -> String {
     let spans_on = std::env::var("SPANS").map(|v| v == "1").unwrap_or(false);
-    let p = P { spans: spans_on };
+    let p = P { spans: spans_on, full: false };
     let token_stream = sylt_tokenizer::string_to_tokens(0, src);
     let tokens: Vec<_> = token_stream.iter().map(|p| p.token.clone()).collect();
     let spans: Vec<_> = token_stream.iter().map(|p| p.span).collect();
